@@ -12,9 +12,11 @@ type GInfo struct {
 	ID      int
 	State   string // e.g. "chan receive (durable)", "sync.Mutex.Lock", "running"
 	Bubble  bool   // belongs to a synctest bubble
+	BubbleID int   // which one
 	Top     string // innermost function
 	Created string // "created by" function
 	Frames  []string
+	Raw     string // the header line
 }
 
 var gHeader = regexp.MustCompile(`^goroutine (\d+) \[([^\]]*)\]:$`)
@@ -36,12 +38,13 @@ func Goroutines() []GInfo {
 		if m := gHeader.FindStringSubmatch(line); m != nil {
 			id, _ := strconv.Atoi(m[1])
 			st := m[2]
-			g := GInfo{ID: id}
+			g := GInfo{ID: id, Raw: line}
 			parts := strings.Split(st, ", ")
 			g.State = parts[0]
 			for _, p := range parts[1:] {
 				if strings.HasPrefix(p, "synctest bubble") {
 					g.Bubble = true
+					g.BubbleID, _ = strconv.Atoi(strings.TrimSpace(strings.TrimPrefix(p, "synctest bubble")))
 				}
 			}
 			out = append(out, g)
@@ -119,4 +122,65 @@ func (g GInfo) Describe() string {
 		fr = g.Top
 	}
 	return g.State + " @ " + fr + " <- " + g.Created
+}
+
+func blockedState(st string) bool {
+	return strings.HasPrefix(st, "chan receive") || strings.HasPrefix(st, "select") ||
+		strings.HasPrefix(st, "sync.Mutex.Lock") || strings.HasPrefix(st, "sync.RWMutex") ||
+		strings.HasPrefix(st, "chan send") || strings.HasPrefix(st, "sync.Cond.Wait") ||
+		strings.HasPrefix(st, "sync.WaitGroup.Wait") || strings.HasPrefix(st, "sleep") ||
+		strings.HasPrefix(st, "synctest")
+}
+
+// SettleBubble spins until every goroutine of the synctest bubble other than
+// the caller is blocked (on a channel, timer, mutex, ...). Unlike
+// synctest.Wait it also accepts goroutines blocked on a mutex, which is needed
+// while a parked goroutine holds a lock others wait for. It returns false if
+// that does not happen within the spin budget.
+// LastCalm holds the snapshot that made the last SettleBubble call return true (debugging aid).
+var LastCalm []GInfo
+
+func SettleBubble() bool {
+	self := GoID()
+	calm := 0
+	for spin := 0; spin < 200000; spin++ {
+		ok := true
+		gs := Goroutines()
+		mine := -1
+		for _, g := range gs {
+			if g.ID == self {
+				mine = g.BubbleID
+			}
+		}
+		for _, g := range gs {
+			if g.ID == self {
+				continue
+			}
+			// the runtime prints a goroutine that has just been made runnable without its
+			// bubble tag: any runnable goroutine counts (one bubble runs per process)
+			if !g.Bubble && !blockedState(g.State) && !strings.HasPrefix(g.State, "GC ") && !strings.HasPrefix(g.State, "finalizer") &&
+				!strings.HasPrefix(g.State, "force gc") && !strings.HasPrefix(g.State, "IO wait") && !strings.HasPrefix(g.State, "syscall") {
+				ok = false
+				break
+			}
+			if !g.Bubble || g.BubbleID != mine {
+				continue
+			}
+			if !blockedState(g.State) {
+				ok = false
+				break
+			}
+		}
+		if ok {
+			calm++
+			if calm >= 3 {
+				LastCalm = gs
+				return true
+			}
+		} else {
+			calm = 0
+		}
+		runtime.Gosched()
+	}
+	return false
 }
